@@ -610,8 +610,11 @@ def check_watchdog(events, meta, pattern):
     drop = next((e for e in events if e[1] == "DEV-CLOSE" and e[2] == cid), None)
     if t_stopping < t_ref + 3 * rt + 2 * eps + 0.2:
         return V      # the lifetime ended before the deadline: nothing to judge
-    if drop is None or drop[0] > t_ref + 3 * rt + eps + 0.2:
-        V.append((f"silent-link-not-dropped:{fl}", f"link silent since t={t_ref} (rt={rt}) dropped at {drop[0] if drop else None}, later than 3 x rt"))
+    # "within about twice that timeout": the threaded gateway looks at its deadline every 0.02 s, the asyncio gateway
+    # every rt + 0.1 s - its drop can come up to one such period after 2 x rt
+    latest = t_ref + (2 * rt + eps + 0.5 if fl == "threaded" else 3 * rt + eps + 0.2)
+    if drop is None or drop[0] > latest:
+        V.append((f"silent-link-not-dropped:{fl}", f"link silent since t={t_ref} (rt={rt}) dropped at {drop[0] if drop else None}, later than t={latest:.2f}"))
     elif drop[0] < t_ref + 2 * rt - eps:
         V.append((f"silent-link-dropped-early:{fl}", f"link silent since t={t_ref} dropped at t={drop[0]}, earlier than 2 x rt={2 * rt}"))
     else:
